@@ -71,6 +71,8 @@ func hedgeTimingScenarios(prop, tier, extra string) []*Scenario {
 		"result(1)": {{K: "result", V: 1}},
 		"errs(E1)":  {{K: "errs", E: E1}},
 		"nomatch":   {{K: "result", V: 77}},
+		// several errors registered in one call, the matching one not last
+		"errs(E1,E4)": {{K: "errs", E: E1, Es: []error{E4}}},
 	}
 	condNames := []string{"default", "result(1)", "errs(E1)", "nomatch"}
 	var durs []Out
@@ -88,7 +90,11 @@ func hedgeTimingScenarios(prop, tier, extra string) []*Scenario {
 			// quick: two hedges only over a reduced alphabet
 			durs = []Out{{V: 1, Dur: 0}, {Err: E1, Dur: D}, {V: 1, Dur: 3 * D}, {V: 0, Dur: 3 * D, Coop: true}, {Err: E1, Block: true}}
 		}
-		for _, cn := range condNames {
+		names := condNames
+		if mh == 1 {
+			names = append(append([]string{}, condNames...), "errs(E1,E4)")
+		}
+		for _, cn := range names {
 			cs := conds[cn]
 			H := Spec{Kind: KHedge, MaxHedges: mh, HDelay: D, Cancel: cs}
 			var rec func(prefix []Out)
@@ -155,7 +161,7 @@ func init() {
 		Property:  "C09",
 		Technique: "stateless schedule exploration (deviation-bounded, happens-before state cache) of the real hedge executor and its attempt threads under a virtual clock, over every assignment of durations and outcomes to the attempts",
 		Rule: "one execution = one complete schedule of a hedged execution whose attempts take scripted durations (0, delay-1, delay, delay+1, 3*delay, until cancelled) and outcomes; " +
-			"every assignment for maxHedges 1 (and 2 over a smaller alphabet in the quick tier) x four cancel-condition configurations, plus placements inside retry/timeout/fallback, including every four-outcome script over a four-element alphabet for a hedge entered twice by a retry under the three non-default cancel conditions; distinct = distinct observation logs",
+			"every assignment for maxHedges 1 (and 2 over a smaller alphabet in the quick tier) x four cancel-condition configurations (five for maxHedges 1: one registers two errors in one call), plus placements inside retry/timeout/fallback, including every four-outcome script over a four-element alphabet for a hedge entered twice by a retry under the three non-default cancel conditions; distinct = distinct observation logs",
 		Assume: []string{"sequentially consistent interleavings at synchronisation granularity", "fixed hedge delay; delay functions are exercised by C13-style enumeration only through the fixed builder",
 			"instrumentation by source rewriting preserves semantics (DESIGN.md §2)"},
 		Units: func(tier string) []Unit {
